@@ -288,7 +288,7 @@ class EnvWizard(AbstractEnvWizard):
                             part = f'({name} := get_env(_var_name))'
 
                         if var_name.__class__ is str:
-                            prefixed = f'f"{{_env_prefix}}{var_name}"'
+                            prefixed = f'f"{{_env_prefix}}" + {var_name!r}'
                         else:
                             # a sequence of variable names: the prefix
                             # applies to each one of them.
